@@ -31,6 +31,18 @@ def remove_unused_self_cls(source: str) -> str:
             arguments = funcdef.args.posonlyargs + funcdef.args.args
             if not arguments:
                 continue
+            if any(
+                core.match_template(
+                    dec,
+                    (
+                        ast.Name(id=("property", "cached_property")),
+                        ast.Attribute(attr=("cached_property", "setter", "getter", "deleter")),
+                ),)
+                for dec in funcdef.decorator_list
+            ):
+                continue  # a property is called with the instance
+            if any(core.walk(funcdef, ast.Call(func=ast.Name(id="super"), args=[]))):
+                continue  # super() needs the instance / class argument
             first_arg_name = arguments[0].arg
 
             first_arg_accesses = set()
